@@ -366,9 +366,10 @@ fn call(name: &str, base: u64, cap: u64, arg: &Arg, dev: &mut RecDev) -> Option<
                 return Some(Sbrm::new(dev, base).map(c_sbrm));
             }
             // receiver: only constructible when its capability register is addressable
-            let s = match catch(|| Sbrm::new(&mut ConstDev(cap), base)) {
-                Ok(Ok(s)) => s,
-                _ => return None,
+            // (a panic here is NOT swallowed: it surfaces as a panic of this call)
+            let s = match Sbrm::new(&mut ConstDev(cap), base) {
+                Ok(s) => s,
+                Err(_) => return None,
             };
             match m {
                 "u3v_version" => s.u3v_version(dev).map(c_ver),
@@ -773,8 +774,8 @@ fn oracle(name: &str, base: u64, cap: u64, arg: &Arg, img: &Image, broken: bool)
                 Ok(bs) => {
                     let n = le(&bs);
                     let first = base as u128 + 8;
-                    if first + 64 * n as u128 >= 1u128 << 64 {
-                        E_DEV.into() // the table does not fit into the address space
+                    if first + 64 * n as u128 > 1u128 << 64 {
+                        E_DEV.into() // the table [base, base + 8 + 64 n) does not fit into the address space
                     } else {
                         let shown: Vec<String> = (0..n.min(ENTRIES_SHOWN as u64)).map(|i| (first + 64 * i as u128).to_string()).collect();
                         format!("ok entries:{}:{}", n, if shown.is_empty() { "-".into() } else { shown.join(",") })
@@ -827,6 +828,42 @@ fn class_of(imp: &str, exp: &str) -> &'static str {
     }
 }
 
+/// Input-distribution counters: where the register lies relative to the end of the address
+/// space, which enumerants / string classes the decoders met.
+fn classify(cx: &mut Ctx, name: &str, base: u64, imp: &str) {
+    if let Some(a) = spec(name) {
+        if a.map != Map::Abrm {
+            let end = base as u128 + a.off as u128 + a.len as u128;
+            cx.rep.count(if base as u128 + a.off as u128 > u64::MAX as u128 {
+                "addr:base+offset overflows u64"
+            } else if end > 1u128 << 64 {
+                "addr:register crosses the end of the address space"
+            } else if end == 1u128 << 64 {
+                "addr:register ends exactly at 2^64"
+            } else {
+                "addr:inside"
+            });
+        }
+        let val = imp.split(" | ").next().unwrap_or("");
+        match a.dec {
+            Dec::Speed => cx.rep.count(&format!("speed:{}", val.trim_start_matches("ok "))),
+            Dec::FileInfo => {
+                let p: Vec<&str> = val.split(':').collect();
+                if p.len() > 2 {
+                    cx.rep.count(&format!("file_type:{}", p[1]));
+                    cx.rep.count(&format!("compression:{}", p[2]));
+                }
+            }
+            Dec::Align => cx.rep.count(if val.starts_with("ok") { "alignment:exponent<64" } else if val.starts_with("err InvalidDevice") { "alignment:exponent>=64 or unreadable" } else { "alignment:other" }),
+            Dec::Str if a.kind == Kind::Get => cx.rep.count(&format!("string-read:{}", if val.starts_with("ok none") { "guard-closed" } else if val.contains("s:-") { "empty" } else if val.starts_with("ok") {
+                let h = val.rsplit("s:").next().unwrap_or("");
+                if unhex(h).is_ascii() { if h.len() == 128 { "ascii-64-no-NUL" } else { "ascii" } } else { "multibyte-utf8" }
+            } else if val.starts_with("err InvalidDevice") { "invalid-utf8 or unreadable" } else { "other" })),
+            _ => {}
+        }
+    }
+}
+
 /// Run accessor `name` once; oracle + model request.
 fn do_acc(cx: &mut Ctx, img: &Image, name: &str, base: u64, cap: u64, broken: bool, arg: &Arg, src: &str) {
     let mut dev = RecDev::new(img, broken);
@@ -847,11 +884,18 @@ fn do_acc(cx: &mut Ctx, img: &Image, name: &str, base: u64, cap: u64, broken: bo
     cx.rep.case(&canon, nontrivial);
     cx.rep.count(&format!("acc/{src}"));
     cx.rep.count(&format!("result:{}", if res == "panic" { "panic" } else if res.starts_with("err") { &res } else if dev.log.is_empty() { "ok-no-access" } else { "ok" }));
+    classify(cx, name, base, &imp);
     match oracle(name, base, cap, arg, img, broken) {
         None => {
-            // receiver exists in the implementation although the tables say it cannot
-            cx.rep.violation(json!({"accessor": name, "class": "receiver"}), "receiver constructed although its capability register is unaddressable",
+            // the tables say this receiver cannot exist (its capability register is unaddressable)
+            let (class, what) = if imp == "panic" {
+                ("panic", "constructing the receiver panicked instead of reporting an error")
+            } else {
+                ("receiver", "receiver constructed although its capability register is unaddressable")
+            };
+            cx.rep.violation(json!({"accessor": name, "class": class}), what,
                 replay_json("acc", img, name, "", base, cap, broken, arg));
+            return;
         }
         Some(exp) => {
             if exp != imp {
@@ -997,6 +1041,18 @@ fn u32_interesting(rng: &mut Rng) -> u32 {
     }
 }
 
+/// 16-bit / 8-bit field values biased to the boundaries
+fn b16(rng: &mut Rng) -> u32 {
+    match rng.below(10) { 0 => 0, 1 => 1, 2 => 2, 3 => 0xFF, 4 => 0x100, 5 => 0xFFFE, 6 => 0xFFFF, 7 => 0x8000, _ => rng.below(0x1_0000) as u32 }
+}
+fn b8(rng: &mut Rng) -> u32 {
+    match rng.below(8) { 0 => 0, 1 => 1, 2 => 2, 3 => 0x7F, 4 => 0x80, 5 => 0xFF, _ => rng.below(0x100) as u32 }
+}
+/// GenCP / U3V version word: major 31:16, minor 15:0
+fn ver_word(rng: &mut Rng) -> u32 {
+    if rng.chance(1, 16) { u32::MAX } else { b16(rng) << 16 | b16(rng) }
+}
+
 struct Layout { sbrm: u64, sirm: u64, table: u64, entry: u64, dcap: u64, ucap: u64 }
 
 /// A structured, mostly valid device image: every register of the tables gets a plausible
@@ -1015,7 +1071,7 @@ fn gen_image(rng: &mut Rng, round: u64) -> (Image, Layout) {
     let p32 = |img: &mut Image, a: Option<u64>, v: u32| if let Some(a) = a { img.patch(a, &v.to_le_bytes()) };
     let p64 = |img: &mut Image, a: Option<u64>, v: u64| if let Some(a) = a { img.patch(a, &v.to_le_bytes()) };
     // ---- ABRM
-    if keep(rng) { p32(&mut img, Some(0x0000), (rng.below(3) as u32) << 16 | rng.below(300) as u32); }
+    if keep(rng) { p32(&mut img, Some(0x0000), ver_word(rng)); }
     for off in [0x0004u64, 0x0044, 0x0084, 0x00C4, 0x0104, 0x0144, 0x0184, 0x0210] {
         if keep(rng) { let s = gen_string_reg(rng, 64); img.patch(off, &s); }
     }
@@ -1028,7 +1084,7 @@ fn gen_image(rng: &mut Rng, round: u64) -> (Image, Layout) {
     if keep(rng) { p64(&mut img, Some(0x01FC), rng.below(100_000)); }
     // ---- SBRM
     let sb = |o: u64| lay.sbrm.checked_add(o);
-    if keep(rng) { p32(&mut img, sb(0x00), (1u32 << 16) | rng.below(3) as u32); }
+    if keep(rng) { p32(&mut img, sb(0x00), ver_word(rng)); }
     p64(&mut img, sb(0x04), ucap);
     if keep(rng) { p32(&mut img, sb(0x14), u32_interesting(rng)); }
     if keep(rng) { p32(&mut img, sb(0x18), u32_interesting(rng)); }
@@ -1039,7 +1095,8 @@ fn gen_image(rng: &mut Rng, round: u64) -> (Image, Layout) {
     if keep(rng) { p32(&mut img, sb(0x34), 0x0c); }
     if keep(rng) { p64(&mut img, sb(0x38), rng.interesting_u64()); }
     if keep(rng) {
-        let v = match rng.below(8) { 0 => 0, 1 => 3, 2 => 32, 3 => rng.next_u64() as u32, _ => 1u32 << rng.below(5) };
+        let v = match rng.below(10) { 0 => 0, 1 => 3, 2 => 32, 3 => rng.next_u64() as u32, 4 => rng.below(64) as u32,
+            5 => (1u32 << rng.below(5)) | (1u32 << rng.below(32)), 6 => 1u32 << rng.below(32), _ => 1u32 << rng.below(5) };
         p32(&mut img, sb(0x40), v);
     }
     // ---- SIRM
@@ -1060,12 +1117,12 @@ fn gen_image(rng: &mut Rng, round: u64) -> (Image, Layout) {
         p64(&mut img, mt(0), n);
     }
     let me = |o: u64| lay.entry.checked_add(o);
-    if keep(rng) { p32(&mut img, me(0x00), (rng.below(4) as u32) << 24 | (rng.below(300) as u32 & 0xff) << 16 | rng.below(70000) as u32 & 0xffff); }
+    if keep(rng) { p32(&mut img, me(0x00), if rng.chance(1, 16) { u32::MAX } else { b8(rng) << 24 | b8(rng) << 16 | b16(rng) }); }
     if keep(rng) {
         let ft = match rng.below(6) { 0 => rng.below(8), _ => rng.below(2) } as u32;
         let ct = match rng.below(6) { 0 => rng.below(64), _ => rng.below(2) } as u32;
         let rsv = if rng.chance(1, 4) { (rng.below(128) as u32) << 3 } else { 0 };
-        p32(&mut img, me(0x04), 1 << 24 | (rng.below(3) as u32) << 16 | ct << 10 | rsv | ft);
+        p32(&mut img, me(0x04), b8(rng) << 24 | b8(rng) << 16 | ct << 10 | rsv | ft);
     }
     if keep(rng) { p64(&mut img, me(0x08), rng.interesting_u64()); }
     if keep(rng) { p64(&mut img, me(0x10), rng.below(1 << 20)); }
